@@ -2,6 +2,29 @@
 import struct
 from vlib.engine import Prop, Failure
 
+def f32bits(x):
+    return "%08x" % struct.unpack("<I", struct.pack("<f", x))[0]
+
+def f32round(x):
+    return struct.unpack("<f", struct.pack("<f", x))[0]
+
+def temper(y):
+    y ^= y >> 11; y ^= (y << 7) & 0x9d2c5680; y ^= (y << 15) & 0xefc60000; y ^= y >> 18
+    return y & 0xffffffff
+
+def untemper(y):
+    """raw table word w with temper(w) == y (used with the pokeraw test hook to reach boundary rolls)"""
+    y ^= y >> 18
+    y ^= (y << 15) & 0xefc60000
+    x = y
+    for _ in range(6): x = y ^ ((x << 7) & 0x9d2c5680)
+    y = x & 0xffffffff
+    x = y
+    for _ in range(3): x = y ^ (x >> 11)
+    return x & 0xffffffff
+
+assert all(temper(untemper(v)) == v for v in (0, 1, 0xffffffff, 0x80000000, 0x12345678, 0xfffffffe))
+
 def dbits(x):
     return "%016x" % struct.unpack("<Q", struct.pack("<d", x))[0]
 
@@ -38,6 +61,9 @@ class C09(Prop):
         return [
             {"name": "ref-5489-like", "ops": ["new32 seed=42", "u32 k=1", "u32 k=623", "u32 k=1", "u32 k=2000", "init seed=42", "u32 k=1"]},
             {"name": "seedzero", "ops": ["seedzero32", "seedzero64"]},
+            {"name": "fchoose-trailing-zero-maxroll", "ops": ["new32 seed=42", "pokeraw w=%d" % untemper(0xffffffff),
+                "fchoose p=" + ",".join(f32bits(f32round(c / 100.0)) for c in (45, 35, 15, 5, 0, 0)), "u32 k=3"]},
+            {"name": "dchoose-zero-roll", "ops": ["new32 seed=7", "pokeraw w=%d" % untemper(0), "dchoose p=" + ",".join(dbits(x) for x in (0.0, 0.5, 0.5)), "random"]},
             {"name": "fast", "ops": ["newfast seed=1", "u32 k=3", "roll n=6", "init seed=1", "u32 k=3"]},
             {"name": "mt64", "ops": ["new64 seed=42", "u64 k=1", "u64 k=311", "u64 k=1", "u64 k=1000", "roll64 n=18446744073709551615", "dbl64", "dblclosed", "dblopen"]},
         ]
@@ -71,6 +97,27 @@ class C09(Prop):
                     elif r < 0.78:
                         nn = rng.choice([1, 2, 5, 10, 100, rng.randrange(1, 3000)])
                         ops.append("deal m=%d n=%d" % (rng.choice([0, 1, nn, nn // 2, rng.randrange(0, nn + 1)]), nn))
+                    elif r < 0.84 and ops[0].startswith("new32"):
+                        # categorical choice at a forced boundary roll: float / double vectors from normalised counts
+                        # (sums slightly off 1), zeros anywhere incl. trailing; roll = 0, max, or next to a cumulative sum
+                        k = rng.randrange(1, 9)
+                        cnt = [rng.choice([0, 0, rng.randrange(1, 100)]) for _ in range(k)]
+                        if sum(cnt) == 0: cnt[rng.randrange(k)] = 7
+                        if rng.random() < 0.5: cnt += [0] * rng.randrange(1, 3)
+                        tot = float(sum(cnt))
+                        asf = rng.random() < 0.6
+                        p = [f32round(c / tot) for c in cnt] if asf else [c / tot for c in cnt]
+                        cum, a = [], 0.0
+                        for x in p: a += x; cum.append(a)
+                        targets = [0, 1, 0xffffffff, 0xfffffffe, 0xffffff00]
+                        for cval in cum:
+                            t = int(cval / cum[-1] * 4294967296.0)
+                            targets += [max(0, min(0xffffffff, t + dlt)) for dlt in (-1, 0, 1)]
+                        ops.append("pokeraw w=%d" % untemper(rng.choice(targets)))
+                        cdf = rng.random() < 0.3
+                        vec = cum if cdf else p
+                        if asf: ops.append(("fchoosecdf" if cdf else "fchoose") + " p=" + ",".join(f32bits(f32round(x)) for x in vec))
+                        else:   ops.append(("dchoosecdf" if cdf else "dchoose") + " p=" + ",".join(dbits(x) for x in vec))
                     elif r < 0.88:
                         k = rng.randrange(1, 9)
                         p = [rng.choice([0.0, 0.0, rng.random()]) for _ in range(k)]
@@ -138,10 +185,13 @@ class C09(Prop):
                 lo_open = w[0] in ("unipos", "dblopen"); hi_closed = w[0] == "dblclosed"
                 if not ((x > 0 if lo_open else x >= 0) and (x <= 1 if hi_closed else x < 1)):
                     return Failure("monitor", "%s returned %r outside its interval" % (w[0], x))
-            elif w[0] in ("dchoose", "dchoosecdf"):
-                p = [struct.unpack("<d", struct.pack("<Q", int(t, 16)))[0] for t in kv["p"].split(",")]
+            elif w[0] in ("dchoose", "dchoosecdf", "fchoose", "fchoosecdf"):
+                if w[0][0] == "f":
+                    p = [struct.unpack("<f", struct.pack("<I", int(t, 16)))[0] for t in kv["p"].split(",")]
+                else:
+                    p = [struct.unpack("<d", struct.pack("<Q", int(t, 16)))[0] for t in kv["p"].split(",")]
                 i = int(l.split()[1])
-                if w[0] == "dchoosecdf": p = [p[0]] + [b - a for a, b in zip(p, p[1:])]
+                if w[0].endswith("cdf"): p = [p[0]] + [b - a for a, b in zip(p, p[1:])]
                 if not (0 <= i < len(p)) or p[i] == 0.0:
                     return Failure("monitor", "choice returned index %d of zero probability" % i)
             elif w[0].startswith("seedzero") and l != "ok nonzero replay":
